@@ -46,7 +46,7 @@ ASSUMPTIONS = ['objects of a space = declared types x all their statuses x decla
 EXHAUSTIVE_NOTE = 'all objects of each generated space pairwise (per space exhaustive)'
 REQUIRED = {'quick': {'pairs.objects': 20000, 'neighbours.state': 2000, 'neighbours.observation': 1500, 'positional': 3000,
                       'agent_marker': 1000, 'default.triple': 1000, 'channels.no_overlap': 50, 'channels.compact': 50,
-                      'equal_members': 500}}
+                      'equal_members': 500, 'mutated_members': 500, 'mutated_members.dynamics': 50}}
 STATUS_INDEX = {Door.Status.OPEN: 0, Door.Status.CLOSED: 1, Door.Status.LOCKED: 2}
 COLOR_VALUE = {Color.NONE: 0, Color.RED: 1, Color.GREEN: 2, Color.BLUE: 3, Color.YELLOW: 4}
 
@@ -156,6 +156,7 @@ def member_level(ctx, spec, name, rep, objs, which, rng, payload, encs):
                 ctx.violation('faithful', 'eq.equal_members_not_equal', f'{spec}: a deep copy of a {which} is not == to it', 'member_case', payload)
         except TypeError:
             pass
+        mutation_consistency(ctx, spec, name, rep, objs, helds, which, rng, payload, m)
         # agent marker
         ctx.hit('agent_marker')
         marker = d['agent_id_grid']
@@ -214,6 +215,83 @@ def member_level(ctx, spec, name, rep, objs, which, rng, payload, encs):
                 if not np.array_equal(d3['item'], d['item']) or not np.array_equal(d3['agent_id_grid'], d['agent_id_grid']):
                     ctx.violation('faithful', f'{name}.not_positional', f'{spec} {name} {which}: changing a cell changed item/agent channels',
                                   'member_case', payload)
+
+
+def mutation_consistency(ctx, spec, name, rep, objs, helds, which, rng, payload, original):
+    """equal members are ==, hash alike and have equal representations also when one of them reached its value
+    through in-place updates (public fields / setters) or through the real dynamics after having been hashed"""
+    from gym_gridverse.action import Action
+    from gym_gridverse.envs import transition_functions as transition_fs
+    rebuild = enc.state_from_json if which == 'state' else enc.observation_from_json
+    m = rebuild(enc.state_to_json(original))
+    try:
+        hash(m), hash(m.grid), hash(m.agent)
+        for row in m.grid.objects:
+            for o in row:
+                hash(o)
+    except TypeError:
+        return
+    h, w = len(m.grid.objects), len(m.grid.objects[0])
+    changed = []
+    for y in range(h):
+        for x in range(w):
+            o = m.grid.objects[y][x]
+            if isinstance(o, Door) and rng.random() < 0.7:
+                o.state = rng.choice([st for st in Door.Status if st is not o.state])
+                changed.append('door.state')
+            elif type(o).__name__ in ('Key', 'Exit', 'Telepod', 'Beacon') and len(spec['colors']) > 1 and rng.random() < 0.5:
+                o.color = rng.choice([Color[c] for c in spec['colors'] if Color[c] is not o.color])
+                changed.append('color')
+    cy, cx = rng.randrange(h), rng.randrange(w)
+    m.grid[cy, cx] = repgen.copy_obj(rng.choice(objs))
+    m.agent.grid_object = repgen.copy_obj(rng.choice(helds))
+    if which == 'state':
+        m.agent.position = Position(rng.randrange(h), rng.randrange(w))
+        m.agent.orientation = rng.choice(gen.ORIENTATIONS)
+    twin = rebuild(enc.state_to_json(m))
+    ctx.ev()
+    ctx.hit('mutated_members')
+    problems = []
+    if not (m == twin):
+        problems.append('not ==')
+    else:
+        try:
+            if hash(m) != hash(twin) or hash(m.grid) != hash(twin.grid) or hash(m.agent) != hash(twin.agent):
+                problems.append('hash differs')
+        except TypeError:
+            pass
+    ok1, d1 = call_real(rep.convert, m)
+    ok2, d2 = call_real(rep.convert, twin)
+    if ok1 and ok2 and flat(d1) != flat(d2):
+        problems.append('representations differ')
+    if problems:
+        ctx.violation('faithful', 'equal_members.after_in_place_update',
+                      f'{spec} {name} {which}: a member updated in place ({sorted(set(changed))}, cell, agent, held item) and a freshly '
+                      f'built equal member: {problems}', 'member_case', payload)
+    # through the real dynamics: open a faced door after the state was hashed
+    if which == 'state' and 'Door' in spec['types'] and h >= 2:
+        rows = repgen.fill_grid(rng, h, w, objs)
+        rows[0][0] = Door(Door.Status.CLOSED, Color[rng.choice(spec['colors'])])
+        st = repgen.make_state(rows, 1, 0, Orientation.F, NoneGridObject())
+        hash(st)
+        ok, ns = call_real(transition_fs.transition_with_copy, transition_fs.transition_function_registry['actuate_door'], st,
+                           Action.ACTUATE)
+        if ok:
+            fresh = enc.state_from_json(enc.state_to_json(ns))
+            ctx.hit('mutated_members.dynamics')
+            bad = []
+            if not (ns == fresh):
+                bad.append('not ==')
+            elif hash(ns) != hash(fresh) or hash(ns.grid.objects[0][0]) != hash(fresh.grid.objects[0][0]):
+                bad.append('hash differs')
+            ok1, d1 = call_real(rep.convert, ns)
+            ok2, d2 = call_real(rep.convert, fresh)
+            if ok1 and ok2 and flat(d1) != flat(d2):
+                bad.append('representations differ')
+            if bad:
+                ctx.violation('faithful', 'equal_members.after_transition',
+                              f'{spec} {name}: the state reached by opening a door and a freshly built equal state: {bad}',
+                              'member_case', payload)
 
 
 def space_case(ctx, types, colors, shape, view, idx):
